@@ -3,46 +3,63 @@ import RsMatterVerif.Lemmas.AdminHist
 # Lemmas for C07: restarts - the stored resumption records fit the stored fabrics
 
 `restartFrom_genInv` (AdminGen) needs `RecOK kv` of the store the node restarts from.  Here: along
-every *calm* history (no store fault fires: `failIn = 0` in every state) the current store and every
-element of the store history are `RecOK`.  The invariant is `RecLive`: every stored resumption
-record refers to a fabric the node has, with the generation of the record (`StoreSub` then gives
-`RecOK`).  It relies on the purged cache being stored whenever a fabric goes away (fix 6c13856).
+EVERY history (store faults at any write included) the current store and every element of the store
+history are `RecOK`.  The invariant is `RecLive`: every stored resumption record refers to a fabric
+the node has, with the generation of the record - or, while the last store of the cache has failed
+(`resumStale`), to no fabric at all (`StoreSub` then gives `RecOK`).  It relies on the purged cache
+being stored whenever a fabric goes away (fix 90703c9) and on the retry of a failed store before
+`AddNOC` makes a new fabric (fix of `C07-failed-purge-on-rollback`): a record whose fabric is gone can
+only stay in the store while the mark is set, and no fabric index is handed out while it is.
 -/
 namespace Admin
 
-/-- every stored resumption record refers to a fabric the node has, of the record's generation -/
+/-- every stored resumption record refers to a fabric the node has, of the record's generation - or,
+while the last store of the cache has failed, to no fabric at all -/
 def RecLive (n : Node) : Prop :=
-  ∀ l, n.kv.resum = .recs l → ∀ r ∈ l, fabGen n r.fab = some r.gen
+  ∀ l, n.kv.resum = .recs l → ∀ r ∈ l,
+    fabGen n r.fab = some r.gen ∨ (n.resumStale = true ∧ fabGen n r.fab = none)
+
+/-- the same without the mark: the state between a rollback and the store of the purged cache -/
+def RecWeak (n : Node) : Prop :=
+  ∀ l, n.kv.resum = .recs l → ∀ r ∈ l, fabGen n r.fab = some r.gen ∨ fabGen n r.fab = none
 
 def HistOK (n : Node) : Prop := ∀ kv ∈ n.hist, RecOK kv
 
-theorem recOK_of {n : Node} (h : GenInv n) (hl : RecLive n) : RecOK n.kv := by
+theorem recWeak_of {n : Node} (h : RecLive n) : RecWeak n :=
+  fun l hl r hr => (h l hl r hr).elim Or.inl (fun x => Or.inr x.2)
+
+theorem recOK_of_weak {n : Node} (h : GenInv n) (hl : RecWeak n) : RecOK n.kv := by
   intro l hl' r hr f' hk
   obtain ⟨f, hf, hg⟩ := h.2 r.fab f' hk
-  have := hl l hl' r hr
-  unfold fabGen at this
-  rw [hf] at this
-  simp only [Option.map_some, Option.some.injEq] at this
-  rw [← hg]; exact this
+  rcases hl l hl' r hr with this | this
+  · unfold fabGen at this
+    rw [hf] at this
+    simp only [Option.map_some, Option.some.injEq] at this
+    rw [← hg]; exact this
+  · unfold fabGen at this
+    rw [hf] at this
+    simp at this
+
+theorem recOK_of {n : Node} (h : GenInv n) (hl : RecLive n) : RecOK n.kv :=
+  recOK_of_weak h (recWeak_of hl)
 
 structure Rec (n : Node) : Prop where
   live : RecLive n
   hist : HistOK n
-  calm : n.failIn = 0
 
 theorem recLive_same {n n' : Node} (hf : ∀ i, fabGen n' i = fabGen n i) (hk : n'.kv.resum = n.kv.resum)
-    (h : RecLive n) : RecLive n' := by
+    (hs : n'.resumStale = n.resumStale) (h : RecLive n) : RecLive n' := by
   intro l hl r hr
-  rw [hf]; exact h l (by rw [← hk]; exact hl) r hr
+  rw [hf, hs]; exact h l (by rw [← hk]; exact hl) r hr
 
 theorem rec_same {n n' : Node} (hf : ∀ i, fabGen n' i = fabGen n i) (hk : n'.kv = n.kv)
-    (hh : n'.hist = n.hist) (hc : n'.failIn = n.failIn) (h : Rec n) : Rec n' :=
-  ⟨recLive_same hf (by rw [hk]) h.live, by unfold HistOK; rw [hh]; exact h.hist, by rw [hc]; exact h.calm⟩
+    (hh : n'.hist = n.hist) (hs : n'.resumStale = n.resumStale) (h : Rec n) : Rec n' :=
+  ⟨recLive_same hf (by rw [hk]) hs h.live, by unfold HistOK; rw [hh]; exact h.hist⟩
 
 /-- a commit: the new store is `RecOK` because the state after it is `GenInv` and `RecLive` -/
 theorem rec_commit {n m : Node} (hg : GenInv m) (hl : RecLive m)
-    (hh : m.hist = m.kv :: n.hist ∨ m.hist = n.hist) (hn : HistOK n) (hc : m.failIn = 0) : Rec m := by
-  refine ⟨hl, fun kv hk => ?_, hc⟩
+    (hh : m.hist = m.kv :: n.hist ∨ m.hist = n.hist) (hn : HistOK n) : Rec m := by
+  refine ⟨hl, fun kv hk => ?_⟩
   rcases hh with hh | hh
   · rw [hh] at hk
     rcases List.mem_cons.mp hk with rfl | hk
@@ -50,55 +67,105 @@ theorem rec_commit {n m : Node} (hg : GenInv m) (hl : RecLive m)
     · exact hn kv hk
   · rw [hh] at hk; exact hn kv hk
 
-/-! ### the primitives without a fault -/
+/-! ### the primitives, with or without a fault -/
 
-theorem kvTick_calm {n : Node} (h : n.failIn = 0) : kvTick n = (n, false) := by
-  simp [kvTick, h]
+theorem kvTick_stale (n : Node) : (kvTick n).1.resumStale = n.resumStale := by
+  unfold kvTick; split <;> (try split) <;> rfl
 
-theorem storeFabric_calm {n : Node} (f : Fabric) (h : n.failIn = 0) :
-    storeFabric n f = (kvCommit n (n.kv.putFabric f), true) := by
-  simp [storeFabric, kvTick_calm h]
+theorem storeFabric_stale (n : Node) (f : Fabric) : (storeFabric n f).1.resumStale = n.resumStale := by
+  have := kvTick_stale n
+  unfold storeFabric
+  rcases ht : kvTick n with ⟨n1, bad⟩
+  rw [ht] at this
+  cases bad <;> exact this
 
-theorem storeNets_calm {n : Node} (h : n.failIn = 0) :
-    storeNets n = (kvCommit n { n.kv with nets := some (n.nets, n.managed) }, true) := by
-  simp [storeNets, kvTick_calm h]
+theorem storeNets_stale (n : Node) : (storeNets n).1.resumStale = n.resumStale := by
+  have := kvTick_stale n
+  unfold storeNets
+  rcases ht : kvTick n with ⟨n1, bad⟩
+  rw [ht] at this
+  cases bad <;> exact this
 
-theorem purgeResum_calm {n : Node} (idx : Nat) (h : n.failIn = 0) :
-    purgeResum n idx =
-      (kvCommit { n with resum := n.resum.filter (fun r => r.fab ≠ idx) }
-        { n.kv with resum := .recs (n.resum.filter (fun r => r.fab ≠ idx)) }, true) := by
-  unfold purgeResum kvTick
-  simp [h]
+theorem removeFabricKey_stale (n : Node) (idx : Nat) : (removeFabricKey n idx).1.resumStale = n.resumStale := by
+  have := kvTick_stale n
+  unfold removeFabricKey
+  rcases ht : kvTick n with ⟨n1, bad⟩
+  rw [ht] at this
+  cases bad with
+  | true => exact this
+  | false =>
+    simp only [Bool.false_eq_true, if_false]
+    split <;> exact this
 
 theorem rec_storeFabric {n : Node} (f : Fabric) (hget : getFabric n f.idx = some f) (hg : GenInv n) (h : Rec n) :
     Rec (storeFabric n f).1 := by
   have hg' := genInv_storeFabric n f hget hg
-  rw [storeFabric_calm f h.calm] at hg' ⊢
-  refine rec_commit hg' ?_ (Or.inl rfl) h.hist h.calm
-  exact recLive_same (n := n) (fun i => rfl) rfl h.live
+  have ⟨hfr, hst⟩ := storeFabric_spec n f
+  have hl : RecLive (storeFabric n f).1 := by
+    refine recLive_same (n := n) (fun i => fabGen_congr hfr.fabrics i) ?_ (storeFabric_stale n f) h.live
+    rcases hst with ⟨_, hkv, _⟩ | ⟨_, hkv, _⟩ <;> rw [hkv] <;> rfl
+  refine rec_commit hg' hl ?_ h.hist
+  rcases hst with ⟨_, hkv, hh⟩ | ⟨_, hkv, hh⟩
+  · left; rw [hh, hkv]
+  · right; exact hh
 
 theorem rec_storeNets {n : Node} (hg : GenInv n) (h : Rec n) : Rec (storeNets n).1 := by
   have hg' := genInv_storeNets n hg
-  rw [storeNets_calm h.calm] at hg' ⊢
-  refine rec_commit hg' ?_ (Or.inl rfl) h.hist h.calm
-  exact recLive_same (n := n) (fun i => rfl) rfl h.live
+  have ⟨hfr, hst⟩ := storeNets_spec n
+  have hl : RecLive (storeNets n).1 := by
+    refine recLive_same (n := n) (fun i => fabGen_congr hfr.fabrics i) ?_ (storeNets_stale n) h.live
+    rcases hst with ⟨_, hkv, _⟩ | ⟨_, hkv, _⟩ <;> rw [hkv]
+  refine rec_commit hg' hl ?_ h.hist
+  rcases hst with ⟨_, hkv, hh⟩ | ⟨_, hkv, hh⟩
+  · left; rw [hh, hkv]
+  · right; exact hh
 
-/-- the purge: whatever the stored records were, afterwards they are the (live) records of the node -/
-theorem rec_purgeResum {n : Node} (idx : Nat) (hg : GenInv n) (hh : HistOK n) (hc : n.failIn = 0) :
-    Rec (purgeResum n idx).1 := by
-  have hg' := (genInv_purgeResum n idx hg).1
-  rw [purgeResum_calm idx hc] at hg' ⊢
-  refine rec_commit hg' ?_ (Or.inl rfl) hh hc
-  intro l hl r hr
-  simp only [kvCommit] at hl
-  injection hl with hl
-  subst hl
-  exact hg'.1.2 r hr
+/-- `store_resumption`: whatever the stored records were - live, or without a fabric -, afterwards
+they are the (live) records of the node, or the failure is marked -/
+theorem rec_storeResum_weak {n : Node} (hg : GenInv n) (hw : RecWeak n) (hh : HistOK n) :
+    Rec (storeResum n).1 := by
+  have hg' := storeResum_genInv n hg
+  have ⟨hfr, _, _, hst⟩ := storeResum_spec n
+  rcases hst with ⟨_, hkv, hhi, hs⟩ | ⟨_, hkv, hhi, hs⟩
+  · refine ⟨fun l hl r hr => ?_, by unfold HistOK; rw [hhi]; exact hh⟩
+    rw [hkv] at hl
+    rw [fabGen_congr hfr.fabrics, hs]
+    rcases hw l hl r hr with h1 | h2
+    · exact Or.inl h1
+    · exact Or.inr ⟨rfl, h2⟩
+  · refine rec_commit hg' ?_ (Or.inl (by rw [hhi, hkv])) hh
+    intro l hl r hr
+    rw [hkv] at hl
+    injection hl with hl
+    subst hl
+    left
+    rw [fabGen_congr hfr.fabrics]
+    exact hg.1.2 r hr
 
-theorem removeFabricKey_calm {n : Node} (idx : Nat) (h : n.failIn = 0) :
-    removeFabricKey n idx = (if n.kv.hasFabric idx then kvCommit n (n.kv.delFabric idx) else n, true) := by
-  simp only [removeFabricKey, kvTick_calm h]
-  by_cases hk : n.kv.hasFabric idx = true <;> simp [hk]
+theorem rec_storeResum {n : Node} (hg : GenInv n) (h : Rec n) : Rec (storeResum n).1 :=
+  rec_storeResum_weak hg (recWeak_of h.live) h.hist
+
+theorem genInv_filterResum (n : Node) (p : Resum → Bool) (h : GenInv n) :
+    GenInv { n with resum := n.resum.filter p } :=
+  ⟨noDangling_sub (n := n) (fun i g hg => hg) (fun s' hs' he _ => ⟨s', hs', he, rfl, rfl⟩)
+    (fun r' hr' => ⟨r', (List.mem_filter.mp hr').1, rfl, rfl⟩) h.1, h.2⟩
+
+/-- the purge: whatever the stored records were, afterwards they are the (live) records of the node,
+or the failure is marked -/
+theorem rec_purgeResum_weak {n : Node} (idx : Nat)
+    (hg : GenInv { n with resum := n.resum.filter (fun r => r.fab ≠ idx) }) (hw : RecWeak n) (hh : HistOK n) :
+    Rec (purgeResum n idx).1 :=
+  rec_storeResum_weak hg hw hh
+
+theorem rec_purgeResum {n : Node} (idx : Nat) (hg : GenInv n) (h : Rec n) : Rec (purgeResum n idx).1 :=
+  rec_purgeResum_weak idx (genInv_filterResum n _ hg) (recWeak_of h.live) h.hist
+
+theorem rec_removeFabricKey_keep {n : Node} (idx : Nat) :
+    (∀ i, fabGen (removeFabricKey n idx).1 i = fabGen n i) ∧
+    (removeFabricKey n idx).1.kv.resum = n.kv.resum ∧
+    (removeFabricKey n idx).1.resumStale = n.resumStale :=
+  ⟨fun i => fabGen_congr (removeFabricKey_spec n idx).1.fabrics i, (removeFabricKey_spec n idx).2.2.1,
+   removeFabricKey_stale n idx⟩
 
 
 /-! ### expiry -/
@@ -135,8 +202,52 @@ theorem expireArmed_keep (cfg : Cfg) (n : Node) (a : Armed) (exp : Option Nat) (
           rw [← hfg]; exact hg
     · rw [if_neg hc]; exact hg
 
+/-- what a rollback does to the generations in general: an index keeps its generation or loses its
+fabric, and an index without a fabric stays without one -/
+theorem expireArmed_gens (cfg : Cfg) (n : Node) (a : Armed) (exp : Option Nat) (h : GenInv n) :
+    (∀ i g, fabGen n i = some g →
+      fabGen (expireArmed cfg n a exp).1 i = some g ∨ fabGen (expireArmed cfg n a exp).1 i = none) ∧
+    (∀ i, fabGen n i = none → fabGen (expireArmed cfg n a exp).1 i = none) := by
+  cases hr : rollbackFabrics cfg n a with
+  | error e =>
+    have : expireArmed cfg n a exp = (n, some e, none) := by unfold expireArmed; simp [hr]
+    rw [this]; exact ⟨fun i g hg => Or.inl hg, fun i hg => hg⟩
+  | ok fs =>
+    have hst := rollbackFabrics_struct cfg n a fs hr
+    have ⟨f1, _, _, _, _⟩ := expireArmed_fields cfg n a exp fs hr
+    have key : ∀ i, fabGen (expireArmed cfg n a exp).1 i = fabGen n i ∨
+        (fabGen (expireArmed cfg n a exp).1 i = none ∧ ∃ g, fabGen n i = some g) ∨
+        (fabGen (expireArmed cfg n a exp).1 i = none ∧ fabGen n i = none) := by
+      intro i
+      unfold fabGen getFabric
+      rw [f1, hst]
+      by_cases hc : a.fab ≠ 0 ∧ i = a.fab
+      · rw [if_pos hc]
+        cases hkv : kvF n.kv a.fab with
+        | none =>
+          cases hgi : n.fabrics.find? (fun f => decide (f.idx = i)) with
+          | none => exact Or.inr (Or.inr ⟨rfl, rfl⟩)
+          | some f => exact Or.inr (Or.inl ⟨rfl, f.gen, rfl⟩)
+        | some f' =>
+          obtain ⟨f, hf, hfg⟩ := h.2 a.fab f' hkv
+          unfold getFabric at hf
+          rw [hc.2, hf]
+          left
+          simp only [Option.map_some]
+          rw [hfg]
+      · rw [if_neg hc]; exact Or.inl rfl
+    refine ⟨fun i g hg => ?_, fun i hg => ?_⟩
+    · rcases key i with k | ⟨k, _⟩ | ⟨k, _⟩
+      · left; rw [k]; exact hg
+      · exact Or.inr k
+      · exact Or.inr k
+    · rcases key i with k | ⟨k, _⟩ | ⟨k, _⟩
+      · rw [k]; exact hg
+      · exact k
+      · exact k
+
 theorem expireArmed_other (cfg : Cfg) (n : Node) (a : Armed) (exp : Option Nat) :
-    (expireArmed cfg n a exp).1.failIn = n.failIn := by
+    (expireArmed cfg n a exp).1.resumStale = n.resumStale := by
   unfold expireArmed
   cases rollbackFabrics cfg n a <;> rfl
 
@@ -144,13 +255,14 @@ theorem rec_expireAndPurge (cfg : Cfg) (n : Node) (a : Armed) (exp : Option Nat)
     Rec (expireAndPurge cfg n a exp).1 := by
   have hpost := expireAndPurge_genInv cfg n a exp hg
   have hkeep := expireArmed_keep cfg n a exp hg
+  have ⟨hgen1, hgen2⟩ := expireArmed_gens cfg n a exp hg
   have ⟨hkv, hhist⟩ := expireArmed_kv cfg n a exp
-  have hfail := expireArmed_other cfg n a exp
+  have hstale := expireArmed_other cfg n a exp
   have herr := expireArmed_error cfg n a exp
   unfold expireAndPurge at hpost ⊢
   rcases hres : expireArmed cfg n a exp with ⟨n1, e, r⟩
-  rw [hres] at hpost hkeep hkv hhist hfail herr
-  simp only at hpost hkeep hkv hhist hfail herr
+  rw [hres] at hpost hkeep hgen1 hgen2 hkv hhist hstale herr
+  simp only at hpost hkeep hgen1 hgen2 hkv hhist hstale herr
   cases e with
   | some e =>
     have := herr e rfl
@@ -160,20 +272,33 @@ theorem rec_expireAndPurge (cfg : Cfg) (n : Node) (a : Armed) (exp : Option Nat)
     cases r with
     | none =>
       simp only [] at hpost ⊢
-      refine ⟨fun l hl r hr => ?_, by unfold HistOK; rw [hhist]; exact h.hist, by rw [hfail]; exact h.calm⟩
+      refine ⟨fun l hl r hr => ?_, by unfold HistOK; rw [hhist]; exact h.hist⟩
       rw [hkv] at hl
-      exact hkeep rfl _ _ (h.live l hl r hr)
+      rw [hstale]
+      rcases h.live l hl r hr with h1 | ⟨h2, h3⟩
+      · exact Or.inl (hkeep rfl _ _ h1)
+      · exact Or.inr ⟨h2, hgen2 _ h3⟩
     | some idx =>
       simp only [] at hpost ⊢
-      have hc1 : n1.failIn = 0 := by rw [hfail]; exact h.calm
-      rw [purgeResum_calm idx hc1] at hpost ⊢
-      simp only [] at hpost ⊢
-      refine rec_commit (n := n1) hpost ?_ (Or.inl rfl) (by unfold HistOK; rw [hhist]; exact h.hist) hc1
-      intro l hl r hr
-      simp only [kvCommit] at hl
-      injection hl with hl
-      subst hl
-      exact hpost.1.2 r hr
+      -- the state between the rollback and the store of the purged cache
+      have hw : RecWeak n1 := by
+        intro l hl r hr
+        rw [hkv] at hl
+        rcases h.live l hl r hr with h1 | ⟨_, h3⟩
+        · exact hgen1 _ _ h1
+        · exact Or.inr (hgen2 _ h3)
+      have hh1 : HistOK n1 := by unfold HistOK; rw [hhist]; exact h.hist
+      have ⟨hfr, hf, _, _⟩ := storeResum_spec { n1 with resum := n1.resum.filter (fun r => decide (r.fab ≠ idx)) }
+      have hg0 : GenInv { n1 with resum := n1.resum.filter (fun r => decide (r.fab ≠ idx)) } :=
+        genInv_same (n := (purgeResum n1 idx).1) hfr.fabrics.symm hfr.sessions.symm hfr.resum.symm hf.symm
+          (by
+            rcases hp : purgeResum n1 idx with ⟨n2, b⟩
+            rw [hp] at hpost
+            cases b <;> exact hpost)
+      have h2 := rec_purgeResum_weak (n := n1) idx hg0 hw hh1
+      rcases hp : purgeResum n1 idx with ⟨n2, b⟩
+      rw [hp] at h2
+      cases b <;> exact h2
 
 theorem rec_expire (cfg : Cfg) (n : Node) (exp : Option Nat) (hg : GenInv n) (h : Rec n) :
     Rec (expire cfg n exp).1 := by
@@ -182,7 +307,8 @@ theorem rec_expire (cfg : Cfg) (n : Node) (exp : Option Nat) (hg : GenInv n) (h 
   | none => exact h
   | some a => exact rec_expireAndPurge cfg n a exp hg h
 
-theorem windowTimeout_other (n : Node) : (windowTimeout n).failIn = n.failIn ∧ (windowTimeout n).fabrics = n.fabrics := by
+theorem windowTimeout_other (n : Node) :
+    (windowTimeout n).resumStale = n.resumStale ∧ (windowTimeout n).fabrics = n.fabrics := by
   unfold windowTimeout; split <;> (try split) <;> exact ⟨rfl, rfl⟩
 
 theorem rec_windowTimeout (n : Node) (h : Rec n) : Rec (windowTimeout n) :=
@@ -208,21 +334,12 @@ theorem rec_checkTimeouts (cfg : Cfg) (n : Node) (sid : Option Nat) (hg : GenInv
 
 /-! ### the commands -/
 
-theorem recLive_keep {n n' : Node} (hf : ∀ i g, fabGen n i = some g → fabGen n' i = some g)
-    (hk : n'.kv.resum = n.kv.resum) (h : RecLive n) : RecLive n' := by
-  intro l hl r hr
-  exact hf _ _ (h l (by rw [← hk]; exact hl) r hr)
-
-theorem rec_keep {n n' : Node} (hf : ∀ i g, fabGen n i = some g → fabGen n' i = some g) (hk : n'.kv = n.kv)
-    (hh : n'.hist = n.hist) (hc : n'.failIn = n.failIn) (h : Rec n) : Rec n' :=
-  ⟨recLive_keep hf (by rw [hk]) h.live, by unfold HistOK; rw [hh]; exact h.hist, by rw [hc]; exact h.calm⟩
-
 /-- the commands that touch neither the store nor the fabric table -/
 theorem sessOp_mem_untouched (cfg : Cfg) (n : Node) (sid : Nat) (mode : Mode) (op : Op)
     (hop : (∃ s u, op = .csr s u) ∨ (∃ s c, op = .root s c) ∨
            (∃ s v, op = .net s v) ∨ (∃ s v, op = .rmnet s v) ∨ (∃ s t, op = .arm s t ∧ t ≠ 0) ∨
            (∃ s v, op = .bcw s v) ∨ (∃ s, op = .openW s)) :
-    (sessOp cfg n sid mode op).1.fabrics = n.fabrics ∧ (sessOp cfg n sid mode op).1.failIn = n.failIn := by
+    (sessOp cfg n sid mode op).1.fabrics = n.fabrics ∧ (sessOp cfg n sid mode op).1.resumStale = n.resumStale := by
   rcases hop with ⟨s, u, rfl⟩ | ⟨s, c, rfl⟩ | ⟨s, v, rfl⟩ | ⟨s, v, rfl⟩ | ⟨s, t, rfl, ht⟩ | ⟨s, v, rfl⟩ | ⟨s, rfl⟩
   all_goals simp only [sessOp]
   all_goals repeat' split
@@ -237,11 +354,11 @@ theorem rec_untouched (cfg : Cfg) (n : Node) (sid : Nat) (mode : Mode) (op : Op)
     rcases hop with h | h | h | h | h | h | h
     · exact Or.inl h
     · exact Or.inr (Or.inl h)
+    · exact Or.inr (Or.inr (Or.inr (Or.inl h)))
     · exact Or.inr (Or.inr (Or.inr (Or.inr (Or.inl h))))
     · exact Or.inr (Or.inr (Or.inr (Or.inr (Or.inr (Or.inl h)))))
     · exact Or.inr (Or.inr (Or.inr (Or.inr (Or.inr (Or.inr (Or.inl h))))))
-    · exact Or.inr (Or.inr (Or.inr (Or.inr (Or.inr (Or.inr (Or.inr (Or.inl h)))))))
-    · exact Or.inr (Or.inr (Or.inr (Or.inr (Or.inr (Or.inr (Or.inr (Or.inr h))))))))
+    · exact Or.inr (Or.inr (Or.inr (Or.inr (Or.inr (Or.inr (Or.inr h)))))))
   exact rec_same (fun i => fabGen_congr h1 i) h3 h4 h2 h
 
 theorem rec_fabric_write (n : Node) (f f' : Fabric) (hidx : f'.idx = f.idx) (hgen : f'.gen = f.gen)
@@ -257,7 +374,7 @@ theorem rec_fabric_write (n : Node) (f f' : Fabric) (hidx : f'.idx = f.idx) (hge
     rw [getFabric_setFabric_eq n f f' hidx hget, hidx]; simp
   split
   · have ⟨m1, _, _, m4, m5⟩ := markDeferred_fields (setFabric n f')
-    have mf : (markDeferred (setFabric n f')).failIn = (setFabric n f').failIn := by
+    have mf : (markDeferred (setFabric n f')).resumStale = (setFabric n f').resumStale := by
       unfold markDeferred; cases (setFabric n f').fs <;> rfl
     exact rec_same (n' := markDeferred (setFabric n f')) (fun i => fabGen_congr m1 i) m4 m5 mf h1
   · have := rec_storeFabric f' hget1 hg1 h1
@@ -331,6 +448,19 @@ theorem rec_updnoc (cfg : Cfg) (n : Node) (sid s node ser : Nat) (mode : Mode) (
               rec_same (fabGen_setFabric n f { f with node := node, ser := ser } rfl rfl (by rw [hidx]; exact hgf)) rfl rfl rfl h
             exact rec_same (n := setFabric n { f with node := node, ser := ser }) (fun i => rfl) rfl rfl rfl h1
 
+theorem rec_undoAdded {n : Node} (idx : Nat) (hg : GenInv n) (h : Rec n) : Rec (undoAdded n idx) := by
+  have hg' := undoAdded_genInv n idx hg
+  have hl : RecLive (undoAdded n idx) := by
+    unfold undoAdded
+    split
+    · have ⟨k1, k2, k3⟩ := rec_removeFabricKey_keep (n := n) idx
+      exact recLive_same k1 k2 k3 h.live
+    · exact h.live
+  refine rec_commit hg' hl ?_ h.hist
+  rcases undoAdded_hist n idx with ⟨_, hh⟩ | ⟨hkv, hh⟩
+  · exact Or.inr hh
+  · left; rw [hh, hkv]
+
 theorem rec_complete (cfg : Cfg) (n : Node) (sid s : Nat) (mode : Mode) (hg : GenInv n) (h : Rec n) :
     Rec (sessOp cfg n sid mode (.complete s)).1 := by
   simp only [sessOp]
@@ -359,72 +489,91 @@ theorem rec_complete (cfg : Cfg) (n : Node) (sid s : Nat) (mode : Mode) (hg : Ge
           rw [hsn] at h3
           simp only at h3
           cases b4 with
-          | false => simp only []; exact rec_same (n := n4) (fun i => rfl) rfl rfl rfl h3
+          | false =>
+            simp only []
+            have hg4 : GenInv n4 := by
+              have := genInv_storeNets { n1 with managed := true } hg2
+              rw [hsn] at this; exact this
+            exact rec_undoAdded f.idx (genInv_same (n := n4) rfl rfl rfl rfl hg4)
+              (rec_same (n := n4) (fun i => rfl) rfl rfl rfl h3)
           | true => simp only [ok]; exact rec_same (n := n4) (fun i => rfl) rfl rfl rfl h3
 
 theorem rec_rmfab (cfg : Cfg) (n : Node) (sid s idx : Nat) (mode : Mode) (hg : GenInv n) (h : Rec n) :
     Rec (sessOp cfg n sid mode (.rmfab s idx)).1 := by
-  unfold sessOp
+  have hfin := sessOp_rmfab_genInv cfg n sid s idx mode hg
+  unfold sessOp at hfin ⊢
   by_cases h0 : idx = 0
   · simp only [h0, if_true]; exact h
-  · simp only [h0, if_false]
+  · simp only [h0, if_false] at hfin ⊢
     by_cases hh : hasFabric n idx = true
-    · simp only [hh, if_true]
+    · simp only [hh, if_true] at hfin ⊢
       have hg2 := (genInv_purgeResum n idx hg).1
-      have hpr := (genInv_purgeResum n idx hg).2
-      have h2 := rec_purgeResum idx hg h.hist h.calm
-      have hrec : ∀ l, (purgeResum n idx).1.kv.resum = .recs l → ∀ r ∈ l, r.fab ≠ idx := by
-        rw [purgeResum_calm idx h.calm]
-        intro l hl r hr
-        simp only [kvCommit] at hl
-        injection hl with hl
-        subst hl
-        simpa using (List.mem_filter.mp hr).2
+      have h2 := rec_purgeResum idx hg h
+      -- after an acknowledged purge the stored records are the node's, none of them of `idx`
+      have hrec : (purgeResum n idx).2 = true → ∀ l, (purgeResum n idx).1.kv.resum = .recs l → ∀ r ∈ l,
+          r.fab ≠ idx ∧ fabGen (purgeResum n idx).1 r.fab = some r.gen := by
+        intro hb l hl r hr
+        have ⟨p1, _, _, _, _, _, _, _, _, hst⟩ := purgeResum_spec n idx
+        rcases hst with ⟨hkv, hhi⟩ | ⟨_, hkv, _⟩
+        · -- the store was not touched although the call succeeded: impossible
+          exfalso
+          unfold purgeResum at hb hhi
+          have ⟨_, _, _, hs2⟩ := storeResum_spec { n with resum := n.resum.filter (fun r => decide (r.fab ≠ idx)) }
+          rcases hs2 with ⟨hb2, _⟩ | ⟨_, _, hh2, _⟩
+          · rw [hb2] at hb; cases hb
+          · rw [hh2] at hhi
+            have := congrArg List.length hhi
+            simp at this
+        · rw [hkv] at hl
+          injection hl with hl
+          subst hl
+          have hm := List.mem_filter.mp hr
+          refine ⟨by simpa using hm.2, ?_⟩
+          rw [fabGen_congr p1]
+          exact hg.1.2 r hm.1
       rcases hp : purgeResum n idx with ⟨n2, b⟩
-      rw [hp] at hg2 hpr h2 hrec
-      simp only at hg2 hpr h2 hrec
+      rw [hp] at hg2 h2 hrec
+      simp only [hp] at hfin ⊢
+      simp only at hg2 h2 hrec
       cases b with
       | false => exact h2
       | true =>
-        simp only []
-        rw [removeFabricKey_calm idx h2.calm]
-        simp only [ok]
-        have hfind : ∀ i, List.find? (fun f => decide (f.idx = i)) (List.filter (fun f => decide (f.idx ≠ idx)) n2.fabrics) =
-            if i = idx then none else getFabric n2 i := by
-          intro i
-          rw [find_filter_ne]
-          by_cases hi : i = idx
-          · simp [hi]
-          · simp only [hi, if_false]; rfl
-        -- the state after the key removal
-        have hfin := sessOp_rmfab_genInv cfg n sid s idx mode hg
-        unfold sessOp at hfin
-        simp only [h0, if_false, hh, if_true, hp, removeFabricKey_calm idx h2.calm, ok] at hfin
-        by_cases hk : n2.kv.hasFabric idx = true
-        · simp only [hk, if_true] at hfin ⊢
-          refine rec_commit (n := n2) hfin ?_ (Or.inl rfl) h2.hist h2.calm
+        simp only [] at hfin ⊢
+        have hrec := hrec rfl
+        have ⟨k1, k2, k3⟩ := rec_removeFabricKey_keep (n := n2) idx
+        have ⟨hfr, _, _, hst⟩ := removeFabricKey_spec n2 idx
+        rcases hrk : removeFabricKey n2 idx with ⟨n3, b3⟩
+        rw [hrk] at k1 k2 k3 hfr hst
+        simp only [hrk] at hfin ⊢
+        simp only at k1 k2 k3 hfr hst
+        have hl3 : RecLive n3 := recLive_same k1 k2 k3 h2.live
+        have hh3 : n3.hist = n3.kv :: n2.hist ∨ n3.hist = n2.hist := by
+          rcases hst with ⟨_, _, ⟨hkv, hhi⟩ | ⟨_, hhi⟩⟩ | ⟨_, _, hhi⟩
+          · left; rw [hhi, hkv]
+          · right; exact hhi
+          · right; exact hhi
+        cases b3 with
+        | false => exact rec_commit hfin hl3 hh3 h2.hist
+        | true =>
+          simp only [ok] at hfin ⊢
+          refine rec_commit (n := n2) hfin ?_ hh3 h2.hist
           intro l hl r hr
-          have hl' : n2.kv.resum = .recs l := hl
-          have hne := hrec l hl' r hr
-          unfold fabGen getFabric
-          simp only [kvCommit]
-          rw [hfind, if_neg hne]
-          exact h2.live l hl' r hr
-        · have hk' : n2.kv.hasFabric idx = false := by simpa using hk
-          simp only [hk', Bool.false_eq_true, if_false] at hfin ⊢
-          refine ⟨fun l hl r hr => ?_, h2.hist, h2.calm⟩
-          have hne := hrec l hl r hr
+          have hl' : n2.kv.resum = .recs l := by rw [← k2]; exact hl
+          have ⟨hne, hlive⟩ := hrec l hl' r hr
+          left
           unfold fabGen getFabric
           simp only []
-          rw [hfind, if_neg hne]
-          exact h2.live l hl r hr
+          rw [find_filter_ne, if_neg hne]
+          have := k1 r.fab
+          unfold fabGen getFabric at this
+          rw [this]
+          exact hlive
     · simp only [hh, Bool.false_eq_true, if_false]; exact h
 
-
-theorem sessOp_addnoc_keep (cfg : Cfg) (n : Node) (sid s ca fid node subj ser : Nat) (mode : Mode) :
-    (∀ i g, fabGen n i = some g → fabGen (sessOp cfg n sid mode (.addnoc s ca fid node subj ser)).1 i = some g) ∧
-    (sessOp cfg n sid mode (.addnoc s ca fid node subj ser)).1.failIn = n.failIn := by
-  simp only [sessOp]
+theorem addNoc_keep (cfg : Cfg) (n : Node) (sid ca fid node subj ser : Nat) (mode : Mode) :
+    (∀ i g, fabGen n i = some g → fabGen (addNoc cfg n sid mode ca fid node subj ser).1 i = some g) ∧
+    (addNoc cfg n sid mode ca fid node subj ser).1.resumStale = n.resumStale := by
+  simp only [addNoc]
   split
   · exact ⟨fun i g h => h, rfl⟩
   · split
@@ -473,6 +622,40 @@ theorem sessOp_addnoc_keep (cfg : Cfg) (n : Node) (sid s ca fid node subj ser : 
                       simp only []
                       rw [happ i (hne i g hg)]; exact hg
 
+/-- `addNoc` creates a fabric only while the stored cache is up to date: every stored record is live
+and stays so -/
+theorem rec_addNoc (cfg : Cfg) (n : Node) (sid ca fid node subj ser : Nat) (mode : Mode) (h : Rec n)
+    (hs : n.resumStale = false) : Rec (addNoc cfg n sid mode ca fid node subj ser).1 := by
+  have ⟨hk, hst⟩ := addNoc_keep cfg n sid ca fid node subj ser mode
+  have ⟨h3, h4⟩ := addNoc_store_untouched cfg n sid mode ca fid node subj ser
+  refine ⟨fun l hl r hr => ?_, by unfold HistOK; rw [h4]; exact h.hist⟩
+  rw [h3] at hl
+  rcases h.live l hl r hr with h1 | ⟨h2, _⟩
+  · exact Or.inl (hk _ _ h1)
+  · rw [hs] at h2; cases h2
+
+theorem rec_addnoc (cfg : Cfg) (n : Node) (sid s ca fid node subj ser : Nat) (mode : Mode) (hg : GenInv n)
+    (h : Rec n) : Rec (sessOp cfg n sid mode (.addnoc s ca fid node subj ser)).1 := by
+  simp only [sessOp, retryResum]
+  by_cases hs : n.resumStale = true
+  · -- the last store of the cache failed: it is retried first
+    simp only [hs, if_true]
+    have h1 := rec_storeResum hg h
+    have ⟨_, _, _, hst⟩ := storeResum_spec n
+    rcases hsr : storeResum n with ⟨n1, b⟩
+    rw [hsr] at h1 hst
+    simp only at h1 hst
+    cases b with
+    | false => exact h1
+    | true =>
+      simp only []
+      rcases hst with ⟨hb, _⟩ | ⟨_, _, _, hs1⟩
+      · cases hb
+      · exact rec_addNoc cfg n1 sid ca fid node subj ser mode h1 hs1
+  · have hs' : n.resumStale = false := by simpa using hs
+    simp only [hs', Bool.false_eq_true, if_false]
+    exact rec_addNoc cfg n sid ca fid node subj ser mode h hs'
+
 theorem sessOp_rec (cfg : Cfg) (n : Node) (sid : Nat) (mode : Mode) (op : Op) (hg : GenInv n) (h : Rec n) :
     Rec (sessOp cfg n sid mode op).1 := by
   cases op with
@@ -491,10 +674,7 @@ theorem sessOp_rec (cfg : Cfg) (n : Node) (sid : Nat) (mode : Mode) (op : Op) (h
   | net s v => exact rec_untouched cfg n sid mode _ h (by simp)
   | rmnet s v => exact rec_untouched cfg n sid mode _ h (by simp)
   | bcw s v => exact rec_untouched cfg n sid mode _ h (by simp)
-  | addnoc s ca fid node subj ser =>
-    have ⟨hk, hf⟩ := sessOp_addnoc_keep cfg n sid s ca fid node subj ser mode
-    have ⟨h3, h4⟩ := sessOp_store_untouched cfg n sid mode (.addnoc s ca fid node subj ser) (by simp)
-    exact rec_keep hk h3 h4 hf h
+  | addnoc s ca fid node subj ser => exact rec_addnoc cfg n sid s ca fid node subj ser mode hg h
   | updnoc s node ser => exact rec_updnoc cfg n sid s node ser mode h
   | acl s v => exact rec_write cfg n sid mode _ hg h (by simp)
   | grp s v => exact rec_write cfg n sid mode _ hg h (by simp)
@@ -601,8 +781,8 @@ theorem rec_restartFrom (n : Node) (kv : KV) (hist : List KV) (h : RecOK kv) (hh
             simpa using hlen
           rw [filter_eq_of_length _ l hlen']
           exact hr
-    exact hg.1.2 r hmem
-  refine ⟨hlive, fun x hx => ?_, (restartFrom_agree n kv hist).2.2.1⟩
+    exact Or.inl (hg.1.2 r hmem)
+  refine ⟨hlive, fun x hx => ?_⟩
   rcases hsub x hx with h1 | ⟨hf, hr⟩
   · exact hh x h1
   · exact recOK_sub hf hr h
@@ -610,13 +790,92 @@ theorem rec_restartFrom (n : Node) (kv : KV) (hist : List KV) (h : RecOK kv) (hh
 
 /-! ### the whole step -/
 
+theorem addSess_stale (cfg : Cfg) (n : Node) (mode : Mode) (peer gen : Nat) :
+    (addSess cfg n mode peer gen).1.resumStale = n.resumStale := by
+  unfold addSess
+  simp only []
+  split <;> rfl
+
 theorem rec_fresh (now g : Nat) : Rec ({ now := now, nextGen := g } : Node) :=
-  ⟨fun l hl => (by cases hl), fun kv hk => (by cases hk), rfl⟩
+  ⟨fun l hl => (by cases hl), fun kv hk => (by cases hk)⟩
 
 theorem recOK_empty : RecOK ({} : KV) := fun l hl => by cases hl
 
-theorem step_good (cfg : Cfg) (n : Node) (op : Op) (hg : GenInv n) (h : Rec n) (hop : op ≠ .freset)
-    (hc' : (step cfg n op).1.failIn = 0) : GenInv (step cfg n op).1 ∧ Rec (step cfg n op).1 := by
+/-- every store a factory reset passes through while it removes the fabric keys: the store before
+with some fabric keys removed (same resumption blob) -/
+theorem delFabricKeys_hist (hi : Nat) : ∀ (fuel i : Nat) (cur : KV) (acc : List KV),
+    ((delFabricKeys hi i fuel cur acc).1.resum = cur.resum ∧
+      ∀ j f', kvF (delFabricKeys hi i fuel cur acc).1 j = some f' → kvF cur j = some f') ∧
+    ∀ x ∈ (delFabricKeys hi i fuel cur acc).2, x ∈ acc ∨
+      (x.resum = cur.resum ∧ ∀ j f', kvF x j = some f' → kvF cur j = some f') := by
+  intro fuel
+  induction fuel with
+  | zero => intro i cur acc; exact ⟨⟨rfl, fun _ _ h => h⟩, fun x hx => Or.inl hx⟩
+  | succ fuel ih =>
+    intro i cur acc
+    simp only [delFabricKeys]
+    split
+    · exact ⟨⟨rfl, fun _ _ h => h⟩, fun x hx => Or.inl hx⟩
+    · split
+      · have ⟨⟨h1, h2⟩, h3⟩ := ih (i + 1) (cur.delFabric i) (cur.delFabric i :: acc)
+        have hsub : ∀ j f', kvF (cur.delFabric i) j = some f' → kvF cur j = some f' := by
+          intro j f' hj
+          rw [kvF_delFabric] at hj
+          split at hj
+          · cases hj
+          · exact hj
+        refine ⟨⟨h1, fun j f' hj => hsub j f' (h2 j f' hj)⟩, fun x hx => ?_⟩
+        rcases h3 x hx with hm | ⟨hr, hf⟩
+        · rcases List.mem_cons.mp hm with rfl | hm
+          · exact Or.inr ⟨rfl, hsub⟩
+          · exact Or.inl hm
+        · exact Or.inr ⟨hr, fun j f' hj => hsub j f' (hf j f' hj)⟩
+      · exact ih (i + 1) cur acc
+
+theorem recOK_of_sub {kv x : KV} (hr : x.resum = kv.resum) (hf : ∀ j f', kvF x j = some f' → kvF kv j = some f')
+    (h : RecOK kv) : RecOK x :=
+  fun l hl r hrl f' hk => h l (by rw [← hr]; exact hl) r hrl f' (hf _ _ hk)
+
+theorem recOK_absent {kv : KV} (h : kv.resum = .absent) : RecOK kv := fun l hl => by rw [h] at hl; cases hl
+
+/-- a factory reset - clean or hit by a store fault - keeps `Rec`: the resumption blob is gone, and
+every store it passes through is the old one with fabric keys removed -/
+theorem factoryReset_rec (n : Node) (hg : GenInv n) (h : Rec n) : Rec (factoryReset n).1 := by
+  have hok : RecOK n.kv := recOK_of hg h.live
+  have ⟨_, _, _, _, h5, _⟩ := factoryReset_mem n
+  refine ⟨(fun l hl => by rw [h5] at hl; cases hl), ?_⟩
+  unfold HistOK factoryReset
+  generalize (if n.failIn ≠ 0 then n.failIn else 256) = hi
+  have hd := delFabricKeys_hist hi 256 1 n.kv n.hist
+  rcases hdk : delFabricKeys hi 1 256 n.kv n.hist with ⟨kv1, hist1⟩
+  rw [hdk] at hd
+  simp only at hd
+  have hh1 : ∀ x ∈ hist1, RecOK x := by
+    intro x hx
+    rcases hd.2 x hx with hm | ⟨hr, hf⟩
+    · exact h.hist x hm
+    · exact recOK_of_sub hr hf hok
+  simp only [kvCommit]
+  intro x hx
+  have key : x ∈ hist1 ∨ x.resum = .absent := by
+    (repeat' split at hx) <;> simp only [hdk] at hx
+    all_goals
+      first
+        | exact Or.inl hx
+        | (rcases List.mem_cons.mp hx with rfl | hx
+           · first | exact Or.inr rfl | exact Or.inr (by simp_all)
+           · first
+              | exact Or.inl hx
+              | (rcases List.mem_cons.mp hx with rfl | hx
+                 · first | exact Or.inr rfl | exact Or.inr (by simp_all)
+                 · exact Or.inl hx))
+  rcases key with hm | ha
+  · exact hh1 x hm
+  · exact recOK_absent ha
+/-- **one step, store faults included**: `GenInv` and `Rec` are kept by every operation; a factory
+reset has to be clean (`ResetClean`: not hit by a store fault) -/
+theorem step_good (cfg : Cfg) (n : Node) (op : Op) (hg : GenInv n) (h : Rec n) (hop : op = .freset → ResetClean n) :
+    GenInv (step cfg n op).1 ∧ Rec (step cfg n op).1 := by
   cases hso : isSessOp op with
   | some sid =>
     have hg1 := checkTimeouts_genInv cfg n (some sid) hg
@@ -636,7 +895,8 @@ theorem step_good (cfg : Cfg) (n : Node) (op : Op) (hg : GenInv n) (h : Rec n) (
       simp only [step, isSessOp]
       split
       · exact h
-      · have ⟨a1, _, a3, a4, a5⟩ := addSess_fields cfg n (.pase 0) 0 0
+      · have ⟨a1, _, a3, a4, _⟩ := addSess_fields cfg n (.pase 0) 0 0
+        have a5 := addSess_stale cfg n (.pase 0) 0 0
         rcases hr : addSess cfg n (.pase 0) 0 0 with ⟨n1, o⟩
         rw [hr] at a1 a3 a4 a5
         cases o <;> exact rec_same (fun i => fabGen_congr a1 i) a3 a4 a5 h
@@ -646,7 +906,8 @@ theorem step_good (cfg : Cfg) (n : Node) (op : Op) (hg : GenInv n) (h : Rec n) (
       split
       · exact h
       · rename_i f _
-        have ⟨a1, _, a3, a4, a5⟩ := addSess_fields cfg n (.case fab) node f.gen
+        have ⟨a1, _, a3, a4, _⟩ := addSess_fields cfg n (.case fab) node f.gen
+        have a5 := addSess_stale cfg n (.case fab) node f.gen
         rcases hr : addSess cfg n (.case fab) node f.gen with ⟨n1, o⟩
         rw [hr] at a1 a3 a4 a5
         cases o <;> exact rec_same (fun i => fabGen_congr a1 i) a3 a4 a5 h
@@ -656,7 +917,8 @@ theorem step_good (cfg : Cfg) (n : Node) (op : Op) (hg : GenInv n) (h : Rec n) (
       split
       · exact h
       · rename_i f _
-        have ⟨a1, _, a3, a4, a5⟩ := addSess_fields cfg n (.case fab) node f.gen
+        have ⟨a1, _, a3, a4, _⟩ := addSess_fields cfg n (.case fab) node f.gen
+        have a5 := addSess_stale cfg n (.case fab) node f.gen
         rcases hr : addSess cfg n (.case fab) node f.gen with ⟨n1, o⟩
         rw [hr] at a1 a3 a4 a5
         cases o <;> exact rec_same (fun i => fabGen_congr a1 i) a3 a4 a5 h
@@ -676,7 +938,8 @@ theorem step_good (cfg : Cfg) (n : Node) (op : Op) (hg : GenInv n) (h : Rec n) (
       · rename_i r _
         split
         · exact h
-        · have ⟨a1, _, a3, a4, a5⟩ := addSess_fields cfg n (.case r.fab) r.peer r.gen
+        · have ⟨a1, _, a3, a4, _⟩ := addSess_fields cfg n (.case r.fab) r.peer r.gen
+          have a5 := addSess_stale cfg n (.case r.fab) r.peer r.gen
           rcases hr : addSess cfg n (.case r.fab) r.peer r.gen with ⟨n1, o⟩
           rw [hr] at a1 a3 a4 a5
           cases o <;> exact rec_same (fun i => fabGen_congr a1 i) a3 a4 a5 h
@@ -689,15 +952,12 @@ theorem step_good (cfg : Cfg) (n : Node) (op : Op) (hg : GenInv n) (h : Rec n) (
       rw [hr] at this
       cases e <;> exact this
     | flush =>
-      have hg' := hnr_case rfl
-      refine ⟨hg', ?_⟩
-      simp only [step, isSessOp, kvTick_calm h.calm, Bool.false_eq_true, if_false, ok] at hg' ⊢
-      refine rec_commit (n := n) hg' ?_ (Or.inl rfl) h.hist h.calm
-      intro l hl r hr
-      simp only [kvCommit] at hl
-      injection hl with hl
-      subst hl
-      exact hg.1.2 r hr
+      refine ⟨hnr_case rfl, ?_⟩
+      simp only [step, isSessOp]
+      have h1 := rec_storeResum hg h
+      rcases hst : storeResum n with ⟨n1, b⟩
+      rw [hst] at h1
+      cases b <;> exact h1
     | restart =>
       simp only [step, isSessOp, ok]
       have hrk := recOK_of hg h.live
@@ -722,16 +982,27 @@ theorem step_good (cfg : Cfg) (n : Node) (op : Op) (hg : GenInv n) (h : Rec n) (
       · exact hk0
       · exact h.hist x hx
     | kvfail k =>
-      refine ⟨hnr_case rfl, ?_⟩
-      have hcalm : ({ n with failIn := min k 3 } : Node).failIn = 0 := hc'
-      exact ⟨recLive_same (n := n) (fun i => rfl) rfl h.live, h.hist, hcalm⟩
+      exact ⟨hnr_case rfl, recLive_same (n := n) (fun i => rfl) rfl rfl h.live, h.hist⟩
     | nop => exact ⟨hg, h⟩
     | coldreset => exact ⟨genInv_fresh _ _, rec_fresh _ _⟩
     | fabrecover i => exact ⟨genInv_fresh _ _, rec_fresh _ _⟩
-    | freset => exact absurd rfl hop
+    | freset => exact ⟨factoryReset_genInv n (hop rfl), factoryReset_rec n hg h⟩
     | _ => simp [isSessOp] at hso
 
-/-- no store fault fires: the fault counter is 0 in every state of the run (decidable) -/
+/-- **every history, store faults and restarts together** -/
+theorem run_good (cfg : Cfg) (ops : List Op) : ∀ (n : Node), GenInv n → Rec n → ResetsClean cfg n ops →
+    GenInv (run cfg n ops) ∧ Rec (run cfg n ops) := by
+  induction ops with
+  | nil => intro n hg h _; exact ⟨hg, h⟩
+  | cons op rest ih =>
+    intro n hg h hno
+    have ⟨hg', h'⟩ := step_good cfg n op hg h hno.1
+    exact ih _ hg' h' hno.2
+
+theorem rec_init : Rec ({} : Node) := ⟨fun l hl => (by cases hl), fun kv hk => (by cases hk)⟩
+
+/-- no store fault fires: the fault counter is 0 in every state of the run (decidable); no longer a
+hypothesis of the theorems, kept to describe histories -/
 def Calm (cfg : Cfg) : Node → List Op → Prop
   | n, [] => n.failIn = 0
   | n, op :: rest => n.failIn = 0 ∧ Calm cfg (step cfg n op).1 rest
@@ -741,23 +1012,5 @@ instance decCalm (cfg : Cfg) : (n : Node) → (ops : List Op) → Decidable (Cal
   | n, op :: rest =>
     have := decCalm cfg (step cfg n op).1 rest
     by simp only [Calm]; infer_instance
-
-theorem calm_head (cfg : Cfg) (n : Node) (ops : List Op) (h : Calm cfg n ops) : n.failIn = 0 := by
-  cases ops with
-  | nil => exact h
-  | cons op rest => exact h.1
-
-theorem run_good (cfg : Cfg) (ops : List Op) : ∀ (n : Node), GenInv n → Rec n → Op.freset ∉ ops → Calm cfg n ops →
-    GenInv (run cfg n ops) ∧ Rec (run cfg n ops) := by
-  induction ops with
-  | nil => intro n hg h _ _; exact ⟨hg, h⟩
-  | cons op rest ih =>
-    intro n hg h hno hcalm
-    have hop : op ≠ .freset := fun he => hno (by rw [he]; exact List.mem_cons_self)
-    have hc' := calm_head cfg _ rest hcalm.2
-    have ⟨hg', h'⟩ := step_good cfg n op hg h hop hc'
-    exact ih _ hg' h' (fun hm => hno (List.mem_cons_of_mem _ hm)) hcalm.2
-
-theorem rec_init : Rec ({} : Node) := ⟨fun l hl => (by cases hl), fun kv hk => (by cases hk), rfl⟩
 
 end Admin
